@@ -3,7 +3,9 @@ import UralModel.Model.Facebook
 # The scope of the round-trip theorem for `ural/facebook.py` (C19)
 
 `reparsable r` is the *decidable hypothesis* of `Ural.Props.C19.Facebook.reparse_url_partial`:
-the records for which "`parse_facebook_url(r.url) == r`" is proved.  It lives next to the model
+the records (returned by the parser or not) for which "`parse_facebook_url(r.url) == r`" is
+proved; `charsOk r` is the character-level hypothesis of `reparse_of_parse_partial` (records
+the parser returned).  It lives next to the model
 (no theorem here) because the driver evaluates it on every record of the correspondence
 stream, so that the check can tell the inputs covered by the theorem from those that are only
 explored (`harness/props/c19/facebook.py`, op `fb_hyp`).
@@ -54,11 +56,10 @@ def postGroupOk (g id : Str) : Bool :=
 /-- `FacebookGroup(id=g)` / `handle=g` -/
 def groupOk (g : Str) : Bool := segOk g && noWatch g
 
-/-- `FacebookPhoto(id, parent_id=p | parent_handle=p, album_id=aid)`: the album id survives
-`replace("a.", "")` -/
+/-- `FacebookPhoto(id, parent_id=p | parent_handle=p, album_id=aid)`: the album id is not empty
+(the parser returns `None` on an empty one); it may contain `a.` — only the prefix is removed -/
 def photoPathOk (p aid id : Str) : Bool :=
-  segOk p && segOk id && aid.all segChar && noWatch p && noWatch id && decide (p ≠ lit "videos") &&
-  !contains aid (lit "a.")
+  segOk p && segOk id && !aid.isEmpty && aid.all segChar && noWatch p && noWatch id && decide (p ≠ lit "videos")
 
 /-- `None`, or a good query value -/
 def optQvalOk (o : Option Str) : Bool :=
@@ -75,7 +76,8 @@ decidable and spelled out in `Lemmas/FacebookShapes.lean`):
 * a field that ends up in the *path* of the url is `segOk`: not empty, without `/ ? # ;` and
   white space, not `.` / `..`; it must not start with `watch` (nor, for a handle, with
   `people`, nor end with `.php`), must not be a route word that an earlier route of the parser
-  tests (`videos`, `photos`, `groups` where relevant); an album id must not contain `a.`;
+  tests (`videos`, `photos`, `groups` where relevant); an album id is not empty, without
+  `/ ? # ;` and white space;
 * a field that ends up in the *query* is `qvalOk`: not empty, without `& # + %`, TAB, CR, LF;
 * ids and handles are told apart by `is_facebook_id`, as the parser does;
 * only the field combinations the parser produces (`Shaped`). -/
@@ -111,51 +113,57 @@ def reparsable : Parsed → Bool
         | _, _ => false)
      | some _, some _ => false)
 
-/-- the character-level part of `reparsable`: the fields that go to the path of the canonical
-url are `segOk`, those that go to its query are `qvalOk`, and the record has one of the field
-combinations the parser produces -/
-def fieldsOk : Parsed → Bool
-  | .user id h => h.isNone && qvalOk id
-  | .handle h => segOk h
+/-- the characters of a path-borne field are ordinary: no `/ ? # ;`, no white space, and the
+field is not a dot segment.  (Nothing about emptiness: the parser never returns an empty one.) -/
+def segChars (s : Str) : Bool := s.all segChar && !isDotSeg s
+
+/-- the characters of a query-borne field are ordinary: no `& # + %` TAB CR LF -/
+def qvalChars (s : Str) : Bool := s.all qvalChar
+
+/-- `None`, or made of ordinary query characters -/
+def optQvalChars (o : Option Str) : Bool :=
+  match o with
+  | none => true
+  | some s => qvalChars s
+
+/-- **the residual hypothesis of the round trip of what the parser returns**
+(`Ural.Props.C19.Facebook.reparse_of_parse_partial`), purely about characters: every field that
+goes to the *path* of the canonical url is made of characters other than `/ ? # ;` and white
+space and is not `.` / `..` (`urljoin` resolves dot segments, `;` starts the params that `urljoin`
+drops when empty, a blank is stripped by `pathsplit`); every field that goes to its *query* is
+made of characters other than `& # + %` TAB CR LF (`parse_qs` decodes `+ %`, splits at `&`,
+`urlsplit` deletes TAB CR LF and cuts at `#`).  Which fields go where depends on the shape of
+the record; a record with a field combination the parser never returns is outside. -/
+def charsOk : Parsed → Bool
+  | .user id h => h.isNone && qvalChars id
+  | .handle h => segChars h
   | .group id h =>
     (match id, h with
-     | some g, none => segOk g
-     | none, some g => segOk g
+     | some g, none => segChars g
+     | none, some g => segChars g
      | _, _ => false)
   | .post id pid ph gid gh =>
     (match pid, ph, gid, gh with
-     | some p, none, none, none => qvalOk p && qvalOk id
-     | none, some x, none, none => segOk x && segOk id
-     | none, none, some g, none => segOk g && segOk id
-     | none, none, none, some g => segOk g && segOk id
+     | some p, none, none, none => qvalChars p && qvalChars id
+     | none, some x, none, none => segChars x && segChars id
+     | none, none, some g, none => segChars g && segChars id
+     | none, none, none, some g => segChars g && segChars id
      | _, _, _, _ => false)
   | .video id pid =>
     (match pid with
-     | none => qvalOk id
-     | some p => segOk p && segOk id)
+     | none => qvalChars id
+     | some p => segChars p && segChars id)
   | .photo id gid pid ph aid =>
     (match pid, ph with
-     | none, none => photoQueryOk id gid aid
+     | none, none => qvalChars id && optQvalChars gid && optQvalChars aid
      | some p, none =>
        (match gid, aid with
-        | none, some a => segOk p && segOk id && a.all segChar
+        | none, some a => segChars p && segChars id && a.all segChar
         | _, _ => false)
      | none, some p =>
        (match gid, aid with
-        | none, some a => segOk p && segOk id && a.all segChar
+        | none, some a => segChars p && segChars id && a.all segChar
         | _, _ => false)
      | some _, some _ => false)
-
-/-- the two shapes of the known findings that `fieldsOk` does not already exclude: a handle that
-starts with `people` (KF-C19-FB-1: only `facebook.com//people…` gives one) and a photo album
-id that contains `a.` (KF-C19-FB-3) -/
-def findingShape : Parsed → Bool
-  | .handle h => startsWith h (lit "people")
-  | .photo _ _ pid ph aid =>
-    (pid.isSome || ph.isSome) &&
-    (match aid with
-     | some a => contains a (lit "a.")
-     | none => false)
-  | _ => false
 
 end Ural.Facebook
